@@ -42,6 +42,8 @@ type Contract struct {
 	NoFrame  bool
 	Unshared bool
 	Getter   bool // pure getter: the result is a function of the receiver (and its ghost version)
+	LocalCalls bool // calls through function values only affect the objects passed to them
+	HavocHeap  bool // may change any program state, but ghost effect logs only as declared
 }
 
 type SpecFn struct {
@@ -188,6 +190,10 @@ func (cs *ContractSet) loadContractFile(path string, pkgPath string) error {
 					c.Unshared = true
 				case "getter":
 					c.Getter = true
+				case "localcalls":
+					c.LocalCalls = true
+				case "havocheap":
+					c.HavocHeap = true
 				case "select", "loop":
 					// fragment selector: select N case K | loop N body
 					if j+3 < len(rest)+0 && (rest[j+2] == "case") {
